@@ -58,7 +58,7 @@ def gen_entries(rng: random.Random) -> list[tuple[bytes, str]]:
         ctrl = rng.sample(["[wait]", "[color]", "[end]", "[nl]", "[name]", "[pause]", "[item]"], rng.randint(1, 4))
         out = [(bytes([0x20 + i]), t, 0) for i, t in enumerate(letters)]
         for i, t in enumerate(ctrl):
-            out.append((bytes([0xF0 + i]), t, rng.choice([1, 1, 2, 0])))
+            out.append((bytes([0xF0 + i]), t, rng.choice([1, 1, 2, 0, 10, 12, 16])))
         rng.shuffle(out)
         return out
     texts: list[str] = []
